@@ -59,6 +59,9 @@ pub struct BhCase {
     /// override: 1 reject_when_full(), 2 max_wait_duration(7 ms), 3 max_concurrent_calls(max + 3)
     #[serde(default)]
     pub decoy: u8,
+    /// requests (by index, mod 64) whose handler calls back into the same bulkhead
+    #[serde(default)]
+    pub nest_mask: u64,
 }
 
 fn case_strategy(tier: Tier) -> BoxedStrategy<BhCase> {
@@ -104,9 +107,13 @@ fn case_strategy(tier: Tier) -> BoxedStrategy<BhCase> {
         prop::collection::vec(caller, 2..=callers_hi),
         prop::collection::vec(any::<u8>(), 0..=48),
         prop_oneof![3 => Just(None), 1 => (1u64..=40).prop_map(Some)],
-        (0u8..4, prop_oneof![3 => Just(0u8), 1 => 1u8..=3]),
+        (
+            0u8..4,
+            prop_oneof![3 => Just(0u8), 1 => 1u8..=3],
+            prop_oneof![5 => Just(0u64), 1 => (0u64..64).prop_map(|k| 1 << k), 1 => any::<u64>().prop_map(|m| m & 0xff)],
+        ),
     )
-        .prop_map(|(max, wait, clones, callers, order, hold, (setter_order, decoy))| BhCase {
+        .prop_map(|(max, wait, clones, callers, order, hold, (setter_order, decoy, nest_mask))| BhCase {
             max,
             wait,
             clones,
@@ -115,6 +122,7 @@ fn case_strategy(tier: Tier) -> BoxedStrategy<BhCase> {
             hold,
             setter_order,
             decoy,
+            nest_mask,
         })
         .boxed()
 }
@@ -175,6 +183,83 @@ fn in_flight_of(log: &[Ev], svc2: bool) -> i64 {
     n
 }
 
+const NESTED_BASE: u32 = 5000;
+
+type Outer = tower::util::BoxCloneService<Req, crate::svc::Resp, BulkheadServiceError<crate::svc::SErr>>;
+
+/// Inner service that, for the requests selected by `mask`, calls back into the very bulkhead it
+/// sits behind (a handler that calls a sibling endpoint of its own service) before it does its
+/// own work. The nested request passes through the bulkhead like any other and counts.
+#[derive(Clone)]
+struct Nest {
+    inner: Scripted,
+    outer: std::sync::Arc<std::sync::Mutex<Option<Outer>>>,
+    log: Log,
+    mask: u64,
+}
+
+impl Service<Req> for Nest {
+    type Response = crate::svc::Resp;
+    type Error = crate::svc::SErr;
+    type Future = futures::future::BoxFuture<'static, Result<crate::svc::Resp, crate::svc::SErr>>;
+
+    fn poll_ready(&mut self, cx: &mut std::task::Context<'_>) -> std::task::Poll<Result<(), Self::Error>> {
+        self.inner.poll_ready(cx)
+    }
+
+    fn call(&mut self, req: Req) -> Self::Future {
+        let nests = req.id < NESTED_BASE && (self.mask >> (req.id % 64)) & 1 == 1;
+        let fut = self.inner.call(req.clone());
+        if !nests {
+            return fut;
+        }
+        let outer = self.outer.lock().unwrap().clone();
+        let log = self.log.clone();
+        Box::pin(async move {
+            if let Some(mut o) = outer {
+                let sub = Req {
+                    id: NESTED_BASE + req.id,
+                    key: 0,
+                    tag: 0x5EED,
+                };
+                log.note("nested_start", sub.id as i64, 0);
+                let r = match futures::future::poll_fn(|cx| o.poll_ready(cx)).await {
+                    Ok(()) => o.call(sub).await,
+                    Err(e) => Err(e),
+                };
+                log.note("nested_end", (NESTED_BASE + req.id) as i64, r.is_ok() as i64);
+            }
+            fut.await
+        })
+    }
+}
+
+/// nested requests that have asked for a slot and neither got into the inner service nor gave up
+fn nested_waiting(log: &[Ev]) -> usize {
+    log.iter()
+        .filter(|e| {
+            if let Ev::Note {
+                kind: "nested_start",
+                a,
+                ..
+            } = e
+            {
+                let id = *a as u32;
+                !entered(log, id)
+                    && !log
+                        .iter()
+                        .any(|f| matches!(f, Ev::Note { kind: "nested_end", a: b, .. } if *b as u32 == id))
+            } else {
+                false
+            }
+        })
+        .count()
+}
+
+fn v_log_has_nested(log: &Log) -> bool {
+    log.with(|l| l.iter().any(|e| matches!(e, Ev::Note { kind: "nested_start", .. })))
+}
+
 fn entered(log: &[Ev], id: u32) -> bool {
     log.iter()
         .any(|e| matches!(e, Ev::Enter { req, .. } if req.id == id))
@@ -194,6 +279,9 @@ async fn interp(case: &BhCase) -> Verdict {
     let mut table: HashMap<u32, Vec<Step>> = HashMap::new();
     for (i, c) in case.callers.iter().enumerate() {
         table.insert(i as u32, vec![c.step]);
+    }
+    for i in 0..case.callers.len() {
+        table.insert(NESTED_BASE + i as u32, vec![Step::ok(5)]);
     }
     let gate_step = Step {
         lat: Lat::Gate,
@@ -234,8 +322,22 @@ async fn interp(case: &BhCase) -> Verdict {
         case.setter_order,
     )
     .build();
-    let base1 = layer.layer(inner1.clone());
-    let base2 = layer.layer(inner2.clone());
+    let outer1: std::sync::Arc<std::sync::Mutex<Option<Outer>>> = Default::default();
+    let base1 = layer.layer(Nest {
+        inner: inner1.clone(),
+        outer: outer1.clone(),
+        log: log.clone(),
+        mask: case.nest_mask,
+    });
+    let base2 = layer.layer(Nest {
+        inner: inner2.clone(),
+        outer: Default::default(),
+        log: log.clone(),
+        mask: 0,
+    });
+    if case.nest_mask != 0 {
+        *outer1.lock().unwrap() = Some(Outer::new(base1.clone()));
+    }
     let mut clones1: Vec<_> = (0..case.clones).map(|_| base1.clone()).collect();
     let mut clones2: Vec<_> = (0..case.clones).map(|_| base2.clone()).collect();
 
@@ -293,6 +395,8 @@ async fn interp(case: &BhCase) -> Verdict {
                     }
                 }
             }
+            // nested requests of service 1 queue for a slot like any caller
+            w[0] += nested_waiting(l);
             ([in_flight_of(l, false), in_flight_of(l, true)], w)
         });
         // handles polled for readiness ahead of their call
@@ -422,7 +526,16 @@ async fn interp(case: &BhCase) -> Verdict {
                 if released_now {
                     saw_release_and_arrival = true;
                 }
-                if prev_waiting[s] == 0 && prev_if[s] + arr.len() as i64 <= max {
+                // nested requests that asked for a slot in this very instant compete with the arrivals
+                let nested_now = if svc2 {
+                    0
+                } else {
+                    snap[log_mark..]
+                        .iter()
+                        .filter(|e| matches!(e, Ev::Note { kind: "nested_start", .. }))
+                        .count() as i64
+                };
+                if prev_waiting[s] == 0 && prev_if[s] + arr.len() as i64 + nested_now <= max {
                     for &i in arr {
                         let ok = snap.iter().any(
                             |e| matches!(e, Ev::Enter { t: te, req, .. } if req.id == i as u32 && *te == t),
@@ -678,6 +791,9 @@ async fn interp(case: &BhCase) -> Verdict {
     }
     if saw_ready_early {
         v.classes.push("handle_ready_before_the_call");
+    }
+    if v_log_has_nested(&log) {
+        v.classes.push("handler_calls_back_into_its_own_bulkhead");
     }
     v.nontrivial_c01 = saw_full_with_queue
         && (saw_cancel_queued || saw_cancel_running || saw_panic || saw_release_and_arrival);
